@@ -481,8 +481,11 @@ class installed:
                 elif isinstance(v, type(threading.Lock())) or isinstance(v, type(threading.RLock())):
                     self.saved.append((d, k, v))
                     d[k] = SimLock(s, f"{name}.{k}")
-        self.locks = dict(lov._LOCKS)
-        lov._LOCKS.clear()
+        # (labrea's private lock table, if this tree has one: emptied so that every lock is created under the scheduler)
+        self.lock_table = getattr(lov, "_LOCKS", None)
+        self.locks = dict(self.lock_table) if self.lock_table is not None else {}
+        if self.lock_table is not None:
+            self.lock_table.clear()
         self.descr = []
         self.undo = []
         self.dicts = []
@@ -511,5 +514,6 @@ class installed:
             setattr(mod, n, orig)
         for d, k, v in self.saved:
             d[k] = v
-        lov._LOCKS.clear()
-        lov._LOCKS.update(self.locks)
+        if self.lock_table is not None:
+            self.lock_table.clear()
+            self.lock_table.update(self.locks)
